@@ -625,7 +625,24 @@ func discoverIn(pkg *packages.Package, rename map[types.Object]string) []string 
 						}
 						return true
 					})
-					if o := info.Defs[id]; o != nil && !clash {
+					o := info.Defs[id]
+					if o == nil || clash {
+						continue
+					}
+					// another local of this function that is being given the same name, in a
+					// scope that overlaps this one
+					for o2, w2 := range rename {
+						if w2 != w || o2 == o || o2.Parent() == nil || o.Parent() == nil {
+							continue
+						}
+						if o2.Pos() < fd.Pos() || o2.Pos() > fd.End() {
+							continue
+						}
+						if o.Parent() == o2.Parent() || o.Parent().Contains(o2.Pos()) || o2.Parent().Contains(o.Pos()) {
+							clash = true
+						}
+					}
+					if !clash {
 						rename[o] = w
 					}
 				}
